@@ -53,7 +53,9 @@ def special_poly(rng, labs):
     if r < 0.4 and len(labs) >= 3:      # a - b*c
         a, b, c = L(3)
         s = rng.choice([1, -1, 2])
-        t = [((a,), F(s)), ((b, c), F(-s))]
+        # the shortcut applies to opposite coefficients only; near misses (same sign, unequal size) must take the general route
+        s2 = rng.choice([-s, -s, -s, -s, s, -2 * s])
+        t = [((a,), F(s)), ((b, c), F(s2))]
         rng.shuffle(t)
         return t
     if r < 0.55 and len(labs) >= 2:     # 1 - x - y
@@ -103,7 +105,10 @@ def gen_call(rng, labs):
     jb = None if b is None else [None if x is None else [F(x).numerator, F(x).denominator] for x in b]
     # unary slack needs one ancilla per unit of range: keep those cases small so the model stays cheap to evaluate
     log = True if hi - lo > 9 else rng.random() < 0.5
-    return {"rel": rng.choice(REL), "P": G.jraw(P), "lam": [lam.numerator, lam.denominator], "log": log, "bounds": jb}
+    rel = rng.choice(REL)
+    if len(P) == 2 and sorted(len(k) for k, _ in P) == [1, 2] and rng.random() < 0.6:
+        rel = "eq"          # the two-term forms around z == x*y only matter for equality constraints
+    return {"rel": rel, "P": G.jraw(P), "lam": [lam.numerator, lam.denominator], "log": log, "bounds": jb}
 
 
 def gen(rng, i, tier):
